@@ -486,12 +486,12 @@ func TestVerifC15(t *testing.T) {
 	n := vfN(200)
 	nsess := n / 25 // real-time scenarios: few
 	if vfTier() == "thorough" {
-		nsess = n / 12
+		nsess = n / 40
 	}
 	if nsess < 2 {
 		nsess = 2
 	}
-	for i := 0; i < n; i++ {
+	for i := 0; i < n && !c15GiveUp(); i++ {
 		r := root.Fork(i)
 		var grp string
 		var in interface{}
